@@ -64,8 +64,10 @@ pub fn setter_stem(f: &Field) -> &str {
 }
 
 fn attr_text(f: &Field) -> String {
+    // `stride = s` or the legacy `stride: s`
+    let stride_sep = if f.attr_order >= 12 { ":" } else { " =" };
     let stride = match f.array {
-        Some(a) if a.explicit => Some(format!("stride = {}", a.stride)),
+        Some(a) if a.explicit => Some(format!("stride{} {}", stride_sep, a.stride)),
         _ => None,
     };
     let single_bit = f.ranges.len() == 1 && f.ranges[0].0 == f.ranges[0].1;
@@ -93,7 +95,7 @@ fn attr_text(f: &Field) -> String {
     };
     let parts = [Some(range), Some(access), stride];
     let args: Vec<String> = order.iter().filter_map(|&k| parts[k].clone()).collect();
-    let trailing = if f.attr_order >= 6 { "," } else { "" };
+    let trailing = if f.attr_order % 12 >= 6 { "," } else { "" };
     format!("#[{}({}{})]", name, args.join(", "), trailing)
 }
 
@@ -131,15 +133,24 @@ fn getter_type(f: &Field, j: usize) -> String {
     }
 }
 
-fn enum_decl(out: &mut String, j: usize, w: u32, discs: &[u128], exhaustive: bool) {
+fn enum_decl(out: &mut String, j: usize, w: u32, discs: &[u128], exhaustive: bool, style: u8) {
     let s = storage_bits(w);
-    let _ = writeln!(
-        out,
-        "#[bitenum(u{w}, exhaustive = {})]\n#[derive(Debug, PartialEq, Eq)]\n#[repr(u{s})]\npub enum E{j} {{",
-        if exhaustive { "true" } else { "false" }
-    );
+    // accepted spellings: `exhaustive = b`, legacy `exhaustive: b`, and nothing at all for a
+    // non-exhaustive enum; discriminants in decimal, hexadecimal or binary
+    let ex = match (exhaustive, style % 3) {
+        (true, 1) => ", exhaustive: true".to_string(),
+        (true, _) => ", exhaustive = true".to_string(),
+        (false, 0) => ", exhaustive = false".to_string(),
+        (false, 1) => ", exhaustive: false".to_string(),
+        (false, _) => String::new(),
+    };
+    let _ = writeln!(out, "#[bitenum(u{w}{ex})]\n#[derive(Debug, PartialEq, Eq)]\n#[repr(u{s})]\npub enum E{j} {{");
     for (k, d) in discs.iter().enumerate() {
-        let _ = writeln!(out, "    V{k} = {d},");
+        let _ = match (style / 3) % 3 {
+            1 => writeln!(out, "    V{k} = {d:#x},"),
+            2 if *d < (1 << 16) => writeln!(out, "    V{k} = {d:#b},"),
+            _ => writeln!(out, "    V{k} = {d},"),
+        };
     }
     let _ = writeln!(out, "}}");
     // in: u128 -> variant; out: variant -> u128. Both spelled out from the description so that
@@ -172,11 +183,11 @@ pub fn layout_module(l: &Layout) -> String {
         match &f.kind {
             Kind::EnumExh => {
                 let discs = f.exhaustive_variants();
-                enum_decl(&mut o, j, w, &discs, true);
+                enum_decl(&mut o, j, w, &discs, true, f.attr_order.wrapping_add(f.variant_rot as u8));
             }
             Kind::EnumOpt { discs } => {
                 let d: Vec<u128> = discs.iter().map(|h| h.0).collect();
-                enum_decl(&mut o, j, w, &d, false);
+                enum_decl(&mut o, j, w, &d, false, f.attr_order.wrapping_add(f.variant_rot as u8).wrapping_add(d.len() as u8));
             }
             Kind::Nested => {
                 let _ = writeln!(
